@@ -359,8 +359,85 @@ def analyse(fn, cursors, entry_safe=0, justified=None, noreturn=("libast_fatal_e
         out += [x for x in a if x[0] != "safe" and x in b]
         return frozenset(out)
 
-    init = frozenset(("safe", p["d"], entry_safe) for p in fn.params if p["d"] in cursors)
-    ins = flow.forward(cfg, init, lambda s, n, b: transfer(s, n, b), refine=refine, join=join)
+    # ---- trace partitioning on boolean mode flags: int locals that are only ever assigned constants (islong = 1) select which
+    # arm of an earlier if the path came through; the cursor facts are kept per flag valuation instead of being merged
+    flagvars = set()
+    bad_flag = set()
+    for x in walk(fn.body):
+        if x.get("k") == "assign":
+            t = X.strip(x["ch"][0])
+            if t.get("k") == "ref" and t.get("rk") == "local" and not t.get("tp") and t.get("d") not in cursors:
+                if x.get("op") == "=" and X.const_val(x["ch"][1]) is not None:
+                    flagvars.add(t["d"])
+                else:
+                    bad_flag.add(t["d"])
+        elif x.get("k") == "decl":
+            for dcl in x.get("decls", ()):
+                if dcl.get("init") is not None and not dcl.get("tp") and dcl["d"] not in cursors:
+                    if X.const_val(dcl["init"]) is not None:
+                        flagvars.add(dcl["d"])
+                    else:
+                        bad_flag.add(dcl["d"])
+        elif x.get("k") == "un" and x.get("op") in ("++", "--", "&"):
+            t = X.strip(x["ch"][0])
+            if t.get("k") == "ref":
+                bad_flag.add(t.get("d"))
+    flagvars -= bad_flag
+    if len(flagvars) > 3:
+        flagvars = set(sorted(flagvars)[:3])
+
+    def fkey(world):
+        return tuple(sorted(x for x in world if x[0] == "flag"))
+
+    def w_transfer(state, n, blk, report=False):
+        out = {}
+        for w in state:
+            w2 = transfer(w, n, blk, report)
+            if flagvars:
+                vals = []
+                if n.get("k") == "assign" and n.get("op") == "=":
+                    t = X.strip(n["ch"][0])
+                    if t.get("k") == "ref" and t.get("d") in flagvars:
+                        vals.append((t["d"], X.const_val(n["ch"][1])))
+                if n.get("k") == "decl":
+                    for dcl in n.get("decls", ()):
+                        if dcl["d"] in flagvars and dcl.get("init") is not None:
+                            vals.append((dcl["d"], X.const_val(dcl["init"])))
+                for d_, v_ in vals:
+                    w2 = frozenset([x for x in w2 if not (x[0] == "flag" and x[1] == d_)] + [("flag", d_, 1 if v_ else 0)])
+            k_ = fkey(w2)
+            out[k_] = join(out[k_], w2) | frozenset(k_) if k_ in out else w2
+        return frozenset(out.values())
+
+    def w_refine(state, cond, truth, blk):
+        out = {}
+        for w in state:
+            if flagvars and not isinstance(truth, tuple):
+                dead = False
+                for f_ in X.implied(cond, truth):
+                    if f_[0] in ("true", "false") and isinstance(f_[1], str) and f_[1].startswith("d") and f_[1][1:].isdigit():
+                        d_ = int(f_[1][1:])
+                        for x in w:
+                            if x[0] == "flag" and x[1] == d_ and bool(x[2]) != (f_[0] == "true"):
+                                dead = True
+                if dead:
+                    continue
+            w2 = refine(w, cond, truth, blk)
+            if w2 is None:
+                continue
+            k_ = fkey(w2)
+            out[k_] = join(out[k_], w2) | frozenset(k_) if k_ in out else w2
+        return frozenset(out.values()) if out else None
+
+    def w_join(a, b):
+        out = {}
+        for w in list(a) + list(b):
+            k_ = fkey(w)
+            out[k_] = join(out[k_], w) | frozenset(k_) if k_ in out else w
+        return frozenset(out.values())
+
+    init = frozenset([frozenset(("safe", p["d"], entry_safe) for p in fn.params if p["d"] in cursors)])
+    ins = flow.forward(cfg, init, lambda s_, n, b: w_transfer(s_, n, b), refine=w_refine, join=w_join)
     # reporting pass
     for b in cfg.rpo():
         if b not in ins:
@@ -369,7 +446,7 @@ def analyse(fn, cursors, entry_safe=0, justified=None, noreturn=("libast_fatal_e
         for e in cfg.blocks[b].el:
             n = fn.nodes.get(e)
             if n is not None:
-                st = transfer(st, n, cfg.blocks[b], report=True)
+                st = w_transfer(st, n, cfg.blocks[b], report=True)
     seen = set()
     out = []
     for n, kind, msg in viol:
